@@ -214,4 +214,246 @@ theorem xpgen_n0eval_eq (s : Str) : Gen.XPathPrim.n0eval s = XPath.n0eval s := b
     | ok r => cases r <;> rfl
   · simp
 
+/-! ### `split_name_index`: library primitives -/
+
+theorem xpgen_sliceTo_neg_one {α : Type} (s : List α) : sliceTo s (-(1 : Int)) = s.dropLast := by
+  simp [sliceTo, List.dropLast_eq_take]
+
+/-- `s[n:-1]` -/
+theorem xpgen_sliceFromTo_neg_one {α : Type} (s : List α) (n : Nat) :
+    sliceFromTo s (n : Int) (-(1 : Int)) = (s.drop n).dropLast := by
+  simp only [sliceFromTo, normBound, List.dropLast_eq_take, List.length_drop]
+  have h1 : ¬ ((n : Int) < 0) := by omega
+  have h2 : (-(1 : Int)) < 0 := by omega
+  simp only [h1, h2, if_true, if_false, Int.toNat_natCast, Int.ofNat_eq_natCast]
+  congr 1
+  omega
+
+/-- `a, b = s.split(sep, 1)` -/
+theorem xpgen_unpack_split1L (sep s : Str) :
+    unpack2E (split1L sep s) = match splitOnce sep s with
+      | none => .error .ValueError
+      | some p => .ok p := by
+  unfold split1L
+  cases splitOnce sep s with
+  | none => rfl
+  | some p => rfl
+
+/-- `s.split(sep, 1)[1]` -/
+theorem xpgen_idx1_split1L (sep s : Str) :
+    idxE (split1L sep s) (1 : Int) = match splitOnce sep s with
+      | none => .error .IndexError
+      | some p => .ok p.2 := by
+  unfold split1L
+  cases splitOnce sep s with
+  | none => rfl
+  | some p => rfl
+
+/-- a separator that occurs is found by `split(sep, 1)` -/
+theorem xpgen_split1_of_isInfix (sep : Str) (hsep : sep ≠ []) (s : Str) :
+    ∀ (fuel : Nat) (acc : Str), s.length < fuel → isInfix sep s = true → (split1 sep fuel acc s).isSome = true := by
+  induction s with
+  | nil =>
+    intro fuel acc _ h
+    cases sep with
+    | nil => exact absurd rfl hsep
+    | cons c t => simp [isInfix] at h
+  | cons c s ih =>
+    intro fuel acc hf h
+    cases fuel with
+    | zero => simp at hf
+    | succ k =>
+      have hk : s.length < k := by simpa using hf
+      simp only [split1]
+      cases hs : startsWith (c :: s) sep with
+      | true => simp
+      | false =>
+        simp only [Bool.false_eq_true, if_false]
+        simp only [isInfix, hs, Bool.false_or] at h
+        exact ih k (c :: acc) hk h
+
+theorem xpgen_splitOnce_of_isInfix (sep : Str) (hsep : sep ≠ []) (s : Str) (h : isInfix sep s = true) :
+    ∃ p, splitOnce sep s = some p := by
+  have := xpgen_split1_of_isInfix sep hsep s (s.length + 1) [] (Nat.lt_succ_self _) h
+  exact Option.isSome_iff_exists.mp this
+
+/-! ### `split_name_index`: the loop over the operator table -/
+
+/-- `=` and `~` are reported as `==` and `~~` -/
+def fixDelim (d : Str) : Str := if d = ['='] then ['=', '='] else if d = ['~'] then ['~', '~'] else d
+
+/-- one iteration: the first delimiter of the table that occurs splits the text (exported by `break`: operator,
+name, value) -/
+theorem xpgen_stepS (idx d : Str) (hd : d ≠ []) :
+    SplitNameIndex.step idx () d =
+      if isInfix d idx then
+        match splitOnce d idx with
+        | none => .error .ValueError
+        | some (k, v) => .ok (.exit (fixDelim d, stripWs k, stripWs v))
+      else .ok (.next ()) := by
+  have hde : d.isEmpty = false := by cases d with
+    | nil => exact absurd rfl hd
+    | cons a t => rfl
+  simp only [SplitNameIndex.step, split1E, hde, Bool.false_eq_true, if_false, xpgen_unpack_split1L]
+  cases isInfix d idx with
+  | false => rfl
+  | true =>
+    simp only [if_true]
+    cases splitOnce d idx with
+    | none => rfl
+    | some p =>
+      obtain ⟨k, v⟩ := p
+      simp only [fixDelim]
+      by_cases h1 : d = ['=']
+      · subst h1; simp
+      · by_cases h2 : d = ['~']
+        · subst h2; simp
+        · simp [h1, h2]
+
+theorem xpgen_foldS (idx : Str) (ds : List Str) (hne : ∀ d ∈ ds, d ≠ []) :
+    foldC (SplitNameIndex.step idx) () ds =
+      match firstDelim idx ds with
+      | none => .ok (.next ())
+      | some d =>
+        match splitOnce d idx with
+        | none => .error .ValueError
+        | some (k, v) => .ok (.exit (fixDelim d, stripWs k, stripWs v)) := by
+  induction ds with
+  | nil => rfl
+  | cons d ds ih =>
+    rw [foldC, xpgen_stepS idx d (hne d (by simp)), firstDelim]
+    cases h : isInfix d idx with
+    | true =>
+      simp only [if_true]
+      cases splitOnce d idx with
+      | none => rfl
+      | some p => rfl
+    | false =>
+      simp only [Bool.false_eq_true, if_false]
+      exact ih (fun d' hd' => hne d' (by simp [hd']))
+
+theorem xpgen_firstDelim_isInfix (idx : Str) (ds : List Str) (d : Str) (h : firstDelim idx ds = some d) :
+    isInfix d idx = true ∧ d ∈ ds := by
+  induction ds with
+  | nil => simp [firstDelim] at h
+  | cons a ds ih =>
+    simp only [firstDelim] at h
+    cases ha : isInfix a idx with
+    | true => simp only [ha, if_true, Option.some.injEq] at h; subst h; simp [ha]
+    | false =>
+      simp only [ha, Bool.false_eq_true, if_false] at h
+      have := ih h
+      exact ⟨this.1, by simp [this.2]⟩
+
+theorem xpgen_condDelims_ne : ∀ d ∈ condDelims, d ≠ [] := by decide
+
+/-- the loop over the operator table, seen through the model's `firstDelim` / `splitOnce` (the `else:` of the loop
+raises `SyntaxError`; a delimiter that occurs always splits) -/
+theorem xpgen_loopS (idx : Str) :
+    foldC (SplitNameIndex.step idx) () condDelims =
+      match firstDelim idx condDelims with
+      | none => .ok (.next ())
+      | some d =>
+        match splitOnce d idx with
+        | none => .error .SyntaxError
+        | some (k, v) => .ok (.exit (fixDelim d, stripWs k, stripWs v)) := by
+  rw [xpgen_foldS idx condDelims xpgen_condDelims_ne]
+  cases h : firstDelim idx condDelims with
+  | none => rfl
+  | some d =>
+    have hd := xpgen_firstDelim_isInfix idx condDelims d h
+    obtain ⟨p, hp⟩ := xpgen_splitOnce_of_isInfix d (xpgen_condDelims_ne d hd.2) idx hd.1
+    simp only [hp]
+
+/-! ### `split_name_index` -/
+
+/-- a step that contains '[' and ends with ']' has a '[' in front of the last character -/
+theorem xpgen_bracket_split (tok : Str) (h1 : tok.contains '[' = true) (h2 : endsWith tok [']'] = true) :
+    ∃ p, splitOnce ['['] tok.dropLast = some p := by
+  apply xpgen_splitOnce_of_isInfix _ (by simp)
+  rw [xpgen_isInfix_single]
+  simp only [endsWith, List.reverse_cons, List.reverse_nil, List.nil_append, xpgen_startsWith_single] at h2
+  cases hr : tok.reverse with
+  | nil => simp [hr] at h2
+  | cons c r =>
+    have hc : c = ']' := by simpa [hr] using h2
+    have ht : tok = r.reverse ++ [']'] := by
+      have := congrArg List.reverse hr
+      simpa [hc] using this
+    subst ht
+    simp only [List.dropLast_concat]
+    simpa using h1
+
+theorem xpgen_sTrue : sTrue = ['t', 'r', 'u', 'e', '(', ')'] := by decide
+theorem xpgen_sFalse : sFalse = ['f', 'a', 'l', 's', 'e', '(', ')'] := by decide
+theorem xpgen_sContains : sContains = ['c', 'o', 'n', 't', 'a', 'i', 'n', 's'] := by decide
+theorem xpgen_sText : sText = ['t', 'e', 'x', 't'] := by decide
+theorem xpgen_textTilde : "text()~~".toList = ['t', 'e', 'x', 't', '(', ')', '~', '~'] := by decide
+theorem xpgen_condDelims : [['=', '='], ['!', '='], ['~', '~'], ['!', '~'], ['~'], ['=']] = condDelims := rfl
+
+theorem xpgen_slice_8 {α : Type} (s : List α) : sliceFromTo s (8 : Int) (-(1 : Int)) = (s.drop 8).dropLast :=
+  xpgen_sliceFromTo_neg_one s 8
+theorem xpgen_slice_1 {α : Type} (s : List α) : sliceFromTo s (1 : Int) (-(1 : Int)) = (s.drop 1).dropLast :=
+  xpgen_sliceFromTo_neg_one s 1
+
+/-- the condition part (`name op value`, `true()`/`false()`, quotes) of the translated source, once the loop over the
+operator table is seen through `xpgen_loopS`, is the model's `parseCond` -/
+local macro "xpgen_cond_tac" : tactic => `(tactic| (
+  rw [parseCond]
+  cases hc : (List.contains _ '=' || List.contains _ '~')
+  · simp [Except.map]
+  · simp only [if_true]
+    cases hd : firstDelim _ condDelims with
+    | none => simp [Except.map]
+    | some d =>
+      simp only []
+      cases hs : splitOnce d _ with
+      | none => simp [Except.map]
+      | some p =>
+        obtain ⟨k, v⟩ := p
+        simp only [fixDelim, xpgen_sTrue, xpgen_sFalse, unquoteE, xpgen_slice_1]
+        by_cases ht : lower (stripWs v) = ['t', 'r', 'u', 'e', '(', ')']
+        · simp [ht, Except.map]
+        · by_cases hf : lower (stripWs v) = ['f', 'a', 'l', 's', 'e', '(', ')']
+          · simp [hf, Except.map]
+          · cases hq : (startsWith (stripWs v) ['"'] && endsWith (stripWs v) ['"'] ||
+                startsWith (stripWs v) ['\''] && endsWith (stripWs v) ['\''])
+            · simp [ht, hf, hq, Except.map]
+            · cases hp : hasPercent ((stripWs v).drop 1).dropLast <;> simp [ht, hf, hq, hp, Except.map]))
+
+theorem xpgen_split_eq (tok : Str) : Gen.XPathPrim.splitNameIndex tok = XPath.splitNameIndex tok := by
+  simp only [Gen.XPathPrim.splitNameIndex, XPath.splitNameIndex, xpgen_isInfix_single, xpgen_sliceTo_neg_one,
+    xpgen_unpack_split1L, xpgen_idx1_split1L, xpgen_condDelims, xpgen_loopS, xpgen_sContains, xpgen_sText,
+    xpgen_textTilde, xpgen_slice_8]
+  cases hA : (tok.contains '[' && endsWith tok [']'])
+  · simp
+  · simp only [if_true]
+    have hA' := hA
+    simp only [Bool.and_eq_true] at hA'
+    obtain ⟨⟨name, idx⟩, hp⟩ := xpgen_bracket_split tok hA'.1 hA'.2
+    simp only [hp]
+    cases hE : (stripWs idx).isEmpty
+    · simp only [Bool.not_false, if_true, Bool.false_eq_true, if_false]
+      cases hC : (startsWith (lower (stripWs idx)) ['c', 'o', 'n', 't', 'a', 'i', 'n', 's'] && endsWith (stripWs idx) [')'])
+      · simp only [Bool.false_eq_true, if_false]
+        xpgen_cond_tac
+      · simp only [if_true]
+        cases h1 : splitOnce ['('] (stripWs ((stripWs idx).drop 8).dropLast) with
+        | none => rfl
+        | some p1 =>
+          obtain ⟨pre, args⟩ := p1
+          simp only []
+          cases h2 : splitOnce [','] args with
+          | none => rfl
+          | some p2 =>
+            obtain ⟨q1, q2⟩ := p2
+            simp only []
+            cases hT : startsWith (lower q1) ['t', 'e', 'x', 't']
+            · simp only [Bool.false_eq_true, if_false]
+              xpgen_cond_tac
+            · simp only [if_true]
+              xpgen_cond_tac
+    · have he : stripWs idx = [] := by simpa using hE
+      simp [he]
+
 end N0.XPathPrimGenEq
